@@ -5,8 +5,8 @@
     replaced by [f] (kinds, role, stoich untouched); [geq] = same graph up to the insertion order of nodes / arcs;
     [iso g h] = some map injective on the nodes of g relabels g into h up to [geq]. *)
 From Coq Require Import List NArith ZArith Bool Arith Permutation.
-From SK Require Import lib.IRSortKeys lib.IRCore lib.IRSearch model.C18_Model model.C18_AttrModel model.C18_WLModel model.C18_BackendModel proof.C18_Attr proof.C18_Order proof.C18_Spec
-  proof.C18_Graph proof.C18_Canon proof.C18_Equiv proof.C18_Label proof.C18_Aut proof.C18_Invariant proof.C18_Wf proof.C18_Count proof.C18_View proof.C18_Vf2 proof.C18_Vf2Count proof.C18_Refine proof.C18_NetBip proof.C18_Net proof.C18_NetSp proof.C18_Orbits proof.C18_OrbSound proof.C18_OrbComplete proof.C18_OrbCanon proof.C18_Maps proof.C18_WL proof.C18_Backend proof.C18_Examples.
+From SK Require Import lib.IRSortKeys lib.IRCore lib.IRSearch model.C18_Model model.C18_AttrModel model.C18_WLModel model.C18_BackendModel model.C18_DepthModel model.C18_IntIdsModel model.C18_UFModel model.C18_AutAttrModel model.C18_SpAttrModel model.C18_RunModel proof.C18_Attr proof.C18_Order proof.C18_Spec
+  proof.C18_Graph proof.C18_Canon proof.C18_Equiv proof.C18_Label proof.C18_Aut proof.C18_Invariant proof.C18_Wf proof.C18_Count proof.C18_View proof.C18_Vf2 proof.C18_Vf2Count proof.C18_Refine proof.C18_NetBip proof.C18_Net proof.C18_NetSp proof.C18_Orbits proof.C18_OrbSound proof.C18_OrbComplete proof.C18_OrbCanon proof.C18_Maps proof.C18_WL proof.C18_Backend proof.C18_Depth proof.C18_IntIds proof.C18_UF proof.C18_AutAttr proof.C18_SpAttr proof.C18_Examples.
 From SK Require Import lib.C18_IRValid.
 From SK Require lib.IRInst.
 Import ListNotations.
@@ -266,11 +266,11 @@ Theorem C18_attr_default : forall (g : vgraph) (t : ltab),
 Proof. exact canon_searchA_default. Qed.
 Print Assumptions C18_attr_default.
 
-(** For EVERY selection (with at least one node key, or a non-empty view: the code itself fails on the empty view with
-    node_attr_keys=()), the search finds a leaf, the reported label is the label of the reported permutation and the
+(** For EVERY selection (since the repair ad4c809 also for the empty view with node_attr_keys=(): the premise the proof used to
+    need there was a crash of the code), the search finds a leaf, the reported label is the label of the reported permutation and the
     canonical graph is the view relabelled by a bijection onto k+1..k+n (clause 1 does not depend on the selection). *)
 Theorem C18_attr_canon_iso : forall (g : vgraph) (t : ltab) (nk : list nsel) (ek : list esel),
-  wf g -> (nk <> [] \/ node_ids g <> []) ->
+  wf g ->
   fst (canon_searchA g t nk ek) <> None /\
   forall lab perm, fst (canon_searchA g t nk ek) = Some (lab, perm) ->
     lab = labelA g t nk ek perm /\
@@ -338,3 +338,123 @@ Theorem C18_backend_silent_edit_refuted : exists (n0 : net) (steps : list hstep)
   run_hist (HG n0 0, []) steps <> spec_hist n0 [] steps.
 Proof. exact backend_silent_edit_refuted. Qed.
 Print Assumptions C18_backend_silent_edit_refuted.
+
+(** Option max_depth of the canonicaliser (model/C18_DepthModel.v follows _search / _canon: the depth is checked before refining,
+    a stop aborts the whole search; compared with the code on the `depth` cases for several bounds).
+    Without the option the bounded search IS the search all theorems above are about, and it never reports an early stop. *)
+Theorem C18_max_depth_none : forall g : vgraph, canon_search_md g None = (canon_search g, false).
+Proof. exact canon_md_none. Qed.
+Print Assumptions C18_max_depth_none.
+
+(** early_stop = False certifies the answer: whenever the bounded search does not report an early stop, best label, canonical
+    permutation and the list of minimal leaves are exactly those of the unbounded search (so every theorem above applies). *)
+Theorem C18_max_depth_exact : forall (g : vgraph) (md : option nat),
+  snd (canon_search_md g md) = false -> fst (canon_search_md g md) = canon_search g.
+Proof. exact canon_md_exact. Qed.
+Print Assumptions C18_max_depth_exact.
+
+(** A bound of at least the number of nodes never stops early (every individualisation adds a cell). *)
+Theorem C18_max_depth_enough : forall (g : vgraph) (d : nat),
+  wf g -> length (vnodes g) <= d -> canon_search_md g (Some d) = (canon_search g, false).
+Proof. exact canon_md_enough. Qed.
+Print Assumptions C18_max_depth_enough.
+
+(** integer_ids=True, now computed inside the model (model/C18_IntIdsModel.v: sorted species 1..N, then the reactions sorted by id
+    N+1..N+M): on a network without a view-id collision the numbered network receives the same minimal label and the identical
+    canonical graph as the named one. *)
+Theorem C18_intids_canon : forall (st : bool) (n : net) (lab p lab' p' : list N),
+  net_ok st n ->
+  (forall r, In r (nrxns n) -> forall sc, In sc (lhs r ++ rhs r) -> (0 < snd sc)%Z) ->
+  fst (canon_search (view true st n)) = Some (lab, p) ->
+  fst (canon_search (view true st (intids_net n))) = Some (lab', p') ->
+  lab' = lab /\ geq (canon_graph (view true st (intids_net n)) p') (canon_graph (view true st n) p).
+Proof. exact net_intids_canon. Qed.
+Print Assumptions C18_intids_canon.
+
+(** Clause 4, orbits, for CRNAutomorphism with the union-find of the code itself (model/C18_UFModel.v: parent dict, find with path
+    halving, union without ranks, buckets by root in node order; evaluated on every case).  Fuel sufficiency of [find] is part of the
+    proof (a parent path inside the nodes is shorter than the node list).  VF2 stays the explicit premise of C18_vf2_count. *)
+Theorem C18_vf2_orbits_uf : forall g : vgraph, wf g ->
+  part (node_ids g) (orbits_from_mappings (node_ids g) (auts g)) /\
+  (forall u v, In u (node_ids g) ->
+     (conn (orbits_from_mappings (node_ids g) (auts g)) u v <-> exists s, is_aut g s /\ s u = v)).
+Proof. exact vf2_orbits_uf. Qed.
+Print Assumptions C18_vf2_orbits_uf.
+
+(** The computed partition does not depend on the order or multiplicity in which the mappings (and the pairs inside a mapping)
+    arrive: this is why the model may run the union-find on its own enumeration instead of VF2's. *)
+Theorem C18_uf_order_independent : forall (nodes : list N) (maps maps' : list (list (N * N))), NoDup nodes ->
+  (forall m sd, In m maps -> In sd m -> In (fst sd) nodes /\ In (snd sd) nodes) ->
+  (forall sd, In sd (concat maps) <-> In sd (concat maps')) ->
+  forall u v, conn (orbits_from_mappings nodes maps) u v <-> conn (orbits_from_mappings nodes maps') u v.
+Proof. exact orbits_order_independent. Qed.
+Print Assumptions C18_uf_order_independent.
+
+(** summary(max_count=k) of the VF2 tool on a view with a >= 1 self-maps (compared with the code on the `vf2opts` cases):
+    stopped_early = False means every mapping was counted and united; a truncated run counted exactly max(k, 1) of them. *)
+Theorem C18_vf2_bookkeeping : forall (a : nat) (k : Z), 1 <= a ->
+  let '(count, stopped, samples, used) := vf2_bookkeeping a k in
+  used = count /\ count <= a /\ samples <= count /\ (stopped = false -> count = a) /\
+  (stopped = true -> count = Z.to_nat (Z.max k 1)).
+Proof. exact bookkeeping_spec. Qed.
+Print Assumptions C18_vf2_bookkeeping.
+
+(** CRNAutomorphism with a non-default node_attr_keys (model/C18_AutAttrModel.v; compared with the code on the `attrs` cases; VF2
+    itself stays the monitored premise).  [is_autA g t nk [ERole; EStoich] s]: s is injective on the nodes, maps nodes to nodes,
+    preserves the SELECTED node attributes and every arc with its role and stoichiometry.  The model's enumerator lists each such
+    self-map exactly once (so its length is their number), and the code's union-find run on these mappings reports exactly their
+    exchangeability classes. *)
+Theorem C18_vf2_attr_count : forall (g : vgraph) (t : ltab) (nk : list nsel), wf g ->
+  NoDup (autsA g t nk) /\
+  (forall s, is_autA g t nk [ERole; EStoich] s ->
+     In (rev (combine (aut_order (recode g t nk)) (map s (aut_order (recode g t nk))))) (autsA g t nk)) /\
+  (forall m, In m (autsA g t nk) -> exists s, is_autA g t nk [ERole; EStoich] s /\
+     m = rev (combine (aut_order (recode g t nk)) (map s (aut_order (recode g t nk))))).
+Proof. exact autsA_spec. Qed.
+Print Assumptions C18_vf2_attr_count.
+
+Theorem C18_vf2_attr_orbits : forall (g : vgraph) (t : ltab) (nk : list nsel), wf g ->
+  part (node_ids g) (orbits_from_mappings (node_ids g) (autsA g t nk)) /\
+  (forall u v, In u (node_ids g) ->
+     (conn (orbits_from_mappings (node_ids g) (autsA g t nk)) u v <-> exists s, is_autA g t nk [ERole; EStoich] s /\ s u = v)).
+Proof. exact autsA_orbits. Qed.
+Print Assumptions C18_vf2_attr_orbits.
+
+(** with the default selection these are the structure-preserving self-maps of all theorems above *)
+Theorem C18_vf2_attr_default : forall (g : vgraph) (t : ltab) (s : N -> N), wf g ->
+  (is_autA g t [NKind] [ERole; EStoich] s <-> is_aut g s).
+Proof. exact is_autA_default. Qed.
+Print Assumptions C18_vf2_attr_default.
+
+(** Attribute selections on the SPECIES view (model/C18_SpAttrModel.v: arcs carry the aggregates stoich_r / stoich_p = minimum
+    over the reactions containing the pair; compared with the code on the species-view `attrs` cases).  The species view of every
+    network whose reactions mention listed species only is a well-formed graph, and for every selection of node keys
+    (kind / label / absent) and edge keys (stoich_r / stoich_p / absent) the canonicaliser finds a leaf, reports the label of the
+    reported permutation, and its canonical graph is the view relabelled by a bijection onto k+1..k+n (clause 1). *)
+Theorem C18_spattr_view_wf : forall n : net,
+  (forall r, In r (nrxns n) -> forall sc, In sc (lhs r ++ rhs r) -> In (fst sc) (nspecies n)) -> wf (view_spS n).
+Proof. exact view_spS_wf. Qed.
+Print Assumptions C18_spattr_view_wf.
+
+Theorem C18_spattr_canon_iso : forall (g : vgraph) (t : ltab) (nk : list nsel) (ek : list sesel),
+  wf g ->
+  fst (canon_searchS g t nk ek) <> None /\
+  forall lab perm, fst (canon_searchS g t nk ek) = Some (lab, perm) ->
+    lab = labelG g (fun v => map (nval g t v) nk) (fun a => map (evalS a) ek) (length ek) perm /\
+    canon_graph g perm = relabel (cid perm) g /\ inj_on (cid perm) (node_ids g) /\
+    (exists k, Permutation (node_ids (canon_graph g perm)) (map N.of_nat (seq (S k) (length (vnodes g))))) /\
+    wf (canon_graph g perm) /\
+    (forall v, In v (node_ids g) -> kind_of (canon_graph g perm) (cid perm v) = kind_of g v) /\
+    (forall u v, In u (node_ids g) -> In v (node_ids g) ->
+       find_arc (canon_graph g perm) (cid perm u) (cid perm v) = find_arc g u v).
+Proof. exact (fun g t nk ek => canon_isoG g (fun v => map (nval g t v) nk) (fun a => map (evalS a) ek) (length nk) (length ek)). Qed.
+Print Assumptions C18_spattr_canon_iso.
+
+(** The approximate orbits of the WL tool are unions of the exact ones: two nodes that the canonicaliser reports in one orbit set
+    carry the same WL colour (hence lie in one WL cell), for every choice of n_iter / include_in_neighbors / include_out_neighbors. *)
+Theorem C18_wl_coarser_than_orbits : forall (g : vgraph) (lab p : list N) (inb outb : bool) (n_iter : nat),
+  wf g -> kinds_ok g -> arcs_ok g -> fst (canon_search g) = Some (lab, p) ->
+  forall c u v, In c (orbits_from_perms (min_leaves g)) -> In u c -> In v c -> In u (node_ids g) ->
+    col_get (wl_colors g [] [NKind] [ERole; EStoich] inb outb n_iter) u = col_get (wl_colors g [] [NKind] [ERole; EStoich] inb outb n_iter) v.
+Proof. exact wl_coarser_than_orbits. Qed.
+Print Assumptions C18_wl_coarser_than_orbits.
